@@ -61,6 +61,38 @@ READERS = [
 PART = "[{{ a }}{{ b }}{{ e }}]"
 
 
+class _OneStepTrim:
+    """A documented customisation point: `Environment.trim()` may interpret the markers
+    "however you see fit".  This one is deliberately NOT idempotent: `~` removes one newline
+    per side, `-` removes one whitespace character per side, `+` nothing - so text that is
+    trimmed twice differs from text trimmed once."""
+
+    def trim(self, text: str, left_trim: Any, right_trim: Any) -> str:
+        from liquid2 import WhitespaceControl as W
+
+        if left_trim == W.DEFAULT:
+            left_trim = self.default_trim  # type: ignore[attr-defined]
+        if right_trim == W.DEFAULT:
+            right_trim = self.default_trim  # type: ignore[attr-defined]
+        if text and left_trim == W.MINUS and text[0].isspace():
+            text = text[1:]
+        elif text and left_trim == W.TILDE and text[0] in "\r\n":
+            text = text[1:]
+        if text and right_trim == W.MINUS and text[-1].isspace():
+            text = text[:-1]
+        elif text and right_trim == W.TILDE and text[-1] in "\r\n":
+            text = text[:-1]
+        return text
+
+
+class OneStepTrimEnvironment(_OneStepTrim, Environment):
+    pass
+
+
+class OneStepTrimShopifyEnvironment(_OneStepTrim, ShopifyEnvironment):
+    pass
+
+
 def uptodate_true() -> bool:
     return True
 
